@@ -747,7 +747,7 @@ class Decider:
                 out.append(None)
         # points where e has a pole / an unmodelled branch: draw replacements (they also serve later queries)
         tries = 0
-        while sum(v is not None for v in out) < self.k and tries < 60:
+        while sum(v is not None for v in out) < self.k and tries < 600:
             tries += 1
             pt = self.extra_point()
             if pt is None: continue
